@@ -3,6 +3,8 @@
 package props
 
 import (
+	"github.com/pegnet/pegnetd/node"
+	"github.com/Factom-Asset-Tokens/factom"
 	"encoding/json"
 	"fmt"
 	"os"
@@ -183,6 +185,30 @@ func c01Scenarios(thorough bool) []c01Scenario {
 			window: func(b *drive.Builder) {
 				b.Add(g(drive.BlockSpec{Rates: R2(), NOPR: 27, SPR: sprSet(era, b.Next(), R2(), A[:], KA, 27)}))
 				b.Add(g(drive.BlockSpec{}))
+			}})
+	}
+	// the one-time ledger adjustments (burn-address zeroing at the developer-reward and 2.0.2 activations, mint, mint burn):
+	// each walks the assets of a special address and records one history row per asset
+	{
+		era := drive.EraStage(drive.StV20)
+		era.Name = "one-time-adjustments"
+		era.DevRewards, era.SprSig = era.Base+7, era.Base+7
+		era.V202, era.OneWaySmall = era.Base+8, era.Base+8
+		era.V204 = era.Base + 9
+		era.V204Burn = era.Base + 10
+		mint, _ := factom.NewFAAddress(node.GlobalMintAddress)
+		out = append(out, c01Scenario{name: "one-time-adjustments/zeroing+mint+mint-burn", era: era,
+			prefix: func(b *drive.Builder) {
+				FundStd(b)
+				// both burn addresses and the mint address hold several assets when their adjustment arrives
+				b.Add(g(drive.BlockSpec{OPRPayTo: OldBurn().String(), TX: []fake.Entry{b.Tx(KA,
+					kit.Transfer(A, "pUSD", 3e8, GlobalBurn()), kit.Transfer(A, "pEUR", 2e8, GlobalBurn()), kit.Transfer(A, "PEG", 5e8, GlobalBurn()),
+					kit.Transfer(A, "pUSD", 4e8, mint), kit.Transfer(A, "pEUR", 1e8, mint))}}))
+			},
+			window: func(b *drive.Builder) {
+				for b.Next() <= era.Base+10 {
+					b.Add(g(drive.BlockSpec{}))
+				}
 			}})
 	}
 	// concurrent entry fetches
